@@ -25,6 +25,8 @@ CLAIMS["C18"] = ("header constants and fingerprint byte order in the header buil
                  "static analysis: aggregate/constant inspection + dominance / post-dominance rules over MIR")
 CLAIMS["C04"] = ("magic bytes (writer constant = reader constant = 4F 62 6A 01), header order magic/metadata map<bytes>/marker on both sides, agreement of the reserved metadata key sets between writer, reader and add_user_metadata's guard, absent avro.codec = Null, block order count/size/payload/marker on both sides with both numbers encoded as long, codec-name tables as inverse bijections over the specification's names",
                  "static analysis: constant evaluation + dominance ordering over MIR, writer/reader/spec-table cross-check")
+CLAIMS["C12"] = ("the canonical form's attribute table (kept set and order vs the specification's STRIP/ORDER lists, unknown attributes stripped, sort by table position, PRIMITIVES decision counting kept attributes), fingerprint::<D> = D(canonical_form()) with no other input, Rabin framing (EMPTY seed value, Default/Reset, little-endian output, per-byte table fold), no hash-order iteration in the canonical-form call-graph slice",
+                 "static analysis: constant-table evaluation + per-literal edge-region classification + call/dataflow shape over MIR")
 NA_DEFAULT = "check under construction in this round (see DESIGN.md); not yet claimed"
 
 
